@@ -1,6 +1,6 @@
 CONSTANTS
-  Family = "redir"
-  Defects = {"RedirectKeepsPort"}
+  Family = "hdr"
+  Defects = {"PercentTrimmed"}
   Big = FALSE
 SPECIFICATION Spec
 INVARIANTS HdrImplIsSem HdrLevelOrder HdrVarResolved PathImplIsSem PrefixWins PathRuleSwapsWholePath HostImplIsSem RedirImplIsSem PfcImplIsSem TmoImplIsSem TryBelowGlobal
